@@ -7,6 +7,9 @@ CONSTANTS
   MaxStreamss = {1, 2}
   NDg = 2
   DgCap = 1
+  DgReaders = 1
+  DgWakeAll = TRUE
+  FinishWakes = TRUE
   AllowReset = TRUE
   AllowStop = TRUE
   AllowLoss = FALSE
@@ -14,6 +17,6 @@ CONSTANTS
   CloseKinds = {}
   Deviations = {}
   CMins = {0}
-  Spices = {"plain", "plain2", "plain3", "reset", "stop"}
+  Spices = {"plain", "plain2", "quiet", "reset", "stop"}
 SPECIFICATION GSpec
 INVARIANTS Emit
